@@ -72,7 +72,7 @@ def check_case(case):
         rec2 = decode_one(obs, obs.gp, rec['x_corr'])
         if rec2['exc'] is None and rec2['x_corr'] != rec['x_corr']:
             res.add(viol('valid_vector_changed', f'x={rec["x"]} -> {rec["x_corr"]} -> {rec2["x_corr"]}', data=d0))
-        if len(res.violations) > 5:
+        if len(res.violations) > 40:
             break
     if obs.exhaustive and full is not None and not res.violations:
         missing = [k for k in full if k not in seen]
